@@ -310,6 +310,7 @@ func TestC03(t *testing.T) {
 			if ok, why := w.Quiesce(); !ok {
 				rep.Inconclusive("case %d after-cancel: %s", ci, why)
 			}
+			atomic.StoreInt32(&pausedOnce, 1) // the hook belongs to request 1 only, also when its id is used again
 			if state == "running" {
 				close(release)
 				sb.BeforeRead = nil
